@@ -80,15 +80,15 @@ func c08Gen(t *rapid.T) c08Case {
 }
 
 type c08Stream struct {
-	id       uint32
-	win      int64
-	got      int  // DATA bytes received
-	ended    bool // END_STREAM seen
-	reset    bool // RST sent by us or received
-	gotHdr   bool
-	blocked  bool
-	planLen  int
-	plan     int
+	id      uint32
+	win     int64
+	got     int  // DATA bytes received
+	ended   bool // END_STREAM seen
+	reset   bool // RST sent by us or received
+	gotHdr  bool
+	blocked bool
+	planLen int
+	plan    int
 }
 
 func c08Run(c c08Case, r *vp.Rec) error {
